@@ -1,5 +1,35 @@
 /-
-  C01 (writer side) — what the native writer produces for a dict of the value domain `DomC01`.
+  C01 (writer side) — what the native writer produces for a dict of the value domain `DomC01`, seen as a source
+  document of the documented grammar (`Grammar.lean`, second half).  This connects the writer model
+  (`NativeFormat.lean`) to the reader-side theorems, which are stated for texts `spreadS (srcToksEs doc) gaps tail`.
+
+    (1) `hoist_id`             on the domain the top-level reordering of placeholder keys is the identity
+    (2) `written_text`         the token written for a scalar has exactly the text `format_value` produces (all scalars)
+        `written_ok`           … and is an admissible source literal (bare source word / single-line quoted string)
+        `srcOf_wf` (+V, Xs)    the written document `srcOfEs es` is a well-formed source document
+    (5) `den_written`          it denotes the normalised dict:   denSrcEs (srcOfEs es) [] = normEs es
+    (3) `fmt_is_layout`        `fmtEntries .native 0 es` (raw output) is `spreadS` of the document's tokens with
+                               admissible gaps (`GapsOKS`) and a white-space tail
+    (4) `rts_layout`           `remove_trailing_spaces` maps any admissible layout of "good" tokens (`TokGood`: non-empty,
+                               last character not white space, no `\n`/`\r` inside) to an admissible layout of the
+                               same tokens — for arbitrary white-space gaps, `\r` and `\r\n` included
+        `fmtPlain_is_layout`   hence `fmtPlain .native es` is an admissible layout of the document's tokens
+        `C01_writer`           (2c) + (5) + (4) in one statement
+    (6) `exDict…`              a concrete dict of the domain, its raw and final text, its tokens, the theorems instantiated
+
+  Hypotheses.  (1)–(3), (5) are stated with `DomC01 .native es` (resp. `isDomScalar`, `domEs`) exactly as asked;
+  `written_text` needs no hypothesis at all.  `rts_layout` has the added (decidable, `tokGoodB_iff`) hypothesis
+  `∀ t ∈ ts, TokGood t`; `rts_layout_needs_nonblank_end` and `rts_layout_needs_no_nl` refute the statement without
+  either half of it.  `hoist_id_needs_dom` and `fmt_is_layout_needs_dom` show that the domain restriction on keys is
+  needed for (1) and (3).
+
+  Proof idea of (3): a layout is a list of (gap, token) pairs (`layP`, `okFrom`); `Lays pd ts txt` says `txt` is an
+  admissible layout of `ts` given whether a delimiter (or nothing) stands in front.  `Lays.append` glues two texts (the
+  tail of the first joins the first gap of the second); every line of `format_dict` is a `Lays.tok` / `lays_line`.
+  In the writer's output every token is preceded by white space except a key at indentation 0 (preceded by `;`, `}`,
+  `{` or nothing) and the glued `;` — a delimiter.
+  Proof idea of (4): `rts` (= join ∘ map rstrip ∘ split) is characterised character by character (`rts_nl`,
+  `rts_cons`); a token is "solid" (`rts_solid`), a gap in front of a token stays a non-empty gap (`rts_gap`).
 -/
 import DictIO.Model.Written
 import DictIO.Props.C04
@@ -66,7 +96,7 @@ theorem isSrcWord_iff {w : Str} : isSrcWord w = true ↔
   simp only [isSrcWord, isPhTok, isCommentTok, isIncludeTok, Bool.and_eq_true, Bool.not_eq_true',
     Bool.or_eq_false_iff, List.all_eq_true, bne_iff_ne, ne_eq, beq_eq_false_iff_ne, and_assoc]
 
-/-! ### (1) no reordering on the domain -/
+/-! ### domain keys are no placeholder look-alikes -/
 
 theorem domKey_not_ph {s : Str} (h : isDomKey (.str s) = true) :
     containsPh kwBlock s = false ∧ containsPh kwIncl s = false := by
@@ -99,23 +129,6 @@ theorem filter3_id {α} (isB isI : α → Bool) (es : List α) (hB : ∀ e ∈ e
   have e2 : es.filter (fun e => !isB e && isI e) = [] := List.filter_eq_nil_iff.mpr fun e he => by simp [hI e he]
   have e3 : es.filter (fun e => !isB e && !isI e) = es := List.filter_eq_self.mpr fun e he => by simp [hB e he, hI e he]
   rw [e1, e2, e3]; rfl
-
-/-- (1) the writer's top-level reordering does nothing on the domain -/
-theorem hoist_id {es : Entries} (h : DomC01 .native es = true) : hoistPlaceholders es = es := by
-  simp only [DomC01, Bool.and_eq_true] at h
-  have hk := domEs_keys h.1
-  unfold hoistPlaceholders
-  refine filter3_id _ _ es ?_ ?_
-  · intro e he
-    have := hk e he
-    split
-    · next s hs => rw [hs] at this; exact (domKey_not_ph this).1
-    · rfl
-  · intro e he
-    have := hk e he
-    split
-    · next s hs => rw [hs] at this; exact (domKey_not_ph this).2
-    · rfl
 
 /-! ### words made of "number characters" are source words -/
 
@@ -309,7 +322,7 @@ theorem pyFloatRepr_numChars {l : Str} (h : C04.IsPyFloatRepr l) : l ≠ [] ∧ 
     · exact hd hds c hc
     · exact pyExp_numChars he c hc
 
-/-! ### (2) how scalars and keys are spelled -/
+/-! ### how scalars and keys are spelled -/
 
 /-- the native writer spells a string bare, in single quotes, or in double quotes (no domain restriction) -/
 theorem formatString_native_three (s : Str) :
@@ -333,8 +346,8 @@ theorem writtenLit_str_dq {s : Str} (h : formatString .native s = dq s) :
   simp only [writtenLit, formatScalar, h, hne]
   simp [dq]
 
-/-- (2a) the text of the written literal is what `format_value` produces — for every scalar -/
-theorem written_text (x : Scalar) : (writtenLit .native x).tok.text = formatScalar .native x := by
+/-- the text of the written literal is what `format_value` produces — for every scalar -/
+theorem writtenLit_text (x : Scalar) : (writtenLit .native x).tok.text = formatScalar .native x := by
   cases x with
   | str s =>
     rcases formatString_native_three s with h | h | h
@@ -379,40 +392,6 @@ theorem domStr_quoted {s : Str} {q : Char} (h : isDomStr .native s = true) (hq :
     Bool.and_eq_true, Bool.not_eq_true', bne_iff_ne, ne_eq]
   exact a
 
-/-- (2b) on the domain the written literal is an admissible source literal -/
-theorem written_ok {x : Scalar} (h : isDomScalar .native x = true) : (writtenLit .native x).ok = true := by
-  cases x with
-  | int z => exact isSrcWord_intRepr z
-  | float l =>
-    have := pyFloatRepr_numChars (pyFloatRepr_bridge h)
-    exact isSrcWord_of_numChars this.1 this.2
-  | bool b => cases b <;> decide
-  | none => decide
-  | str s =>
-    have h : isDomStr .native s = true := h
-    have hd := domStr_no_dollar h
-    obtain ⟨_, _, _, _, _, _, _, hboth, hlast⟩ := isDomStr_iff.mp h
-    rcases C04.formatString_native_cases hd with ⟨hf, hne, hall⟩ | ⟨hf, hc⟩ | ⟨hf, _, hc⟩
-    · rw [writtenLit_str_bare hf]
-      obtain ⟨hq, hcx⟩ := (C04.all_plain_iff s).mp hall
-      rcases hlast with h1 | h1 | h1 | h1
-      · exact absurd (by simpa using h1) hne
-      · rw [hq] at h1; cases h1
-      · rw [hcx] at h1; cases h1
-      · exact h1
-    · rw [writtenLit_str_sq hf]
-      refine domStr_quoted h (by decide) ?_
-      rcases hc with rfl | hc | ⟨_, hc⟩
-      · rfl
-      · cases h1 : s.contains '\'' with
-        | false => rfl
-        | true => exact absurd ⟨h1, hc⟩ hboth
-      · rw [C04.any_isQuote] at hc
-        simp only [Bool.or_eq_false_iff] at hc
-        exact hc.1
-    · rw [writtenLit_str_dq hf]
-      exact domStr_quoted h (by decide) hc
-
 /-- the key identity: on the domain `format_key(k)` is `str(k)` -/
 theorem formatKey_eq_keyStr {k : Key} (h : isDomKey k = true) : formatKey .native k = keyStr k := by
   cases k with
@@ -451,36 +430,7 @@ theorem domKey_types_back {k : Key} (h : isDomKey k = true) : keyOfScalar (parse
     simp only [isDomKey, Bool.and_eq_true, beq_iff_eq] at h
     simp only [keyStr, h.1.2, keyOfScalar]
 
-mutual
-  theorem srcOfV_wf : ∀ (d : Nat) (v : Val), domV .native d v = true → SrcWFV d (srcOfV .native v) = true
-    | d, .leaf x, h => by
-      simp only [domV, Bool.and_eq_true] at h
-      simp only [srcOfV, SrcWFV, Bool.and_eq_true]
-      exact ⟨written_ok h.1, h.2⟩
-    | d, .dict es, h => by
-      simp only [domV, Bool.and_eq_true] at h
-      simp only [srcOfV, SrcWFV]
-      exact srcOf_wf (d + 1) es h.1
-    | d, .list xs, h => by
-      simp only [domV] at h
-      simp only [srcOfV, SrcWFV]
-      exact srcOfXs_wf (d + 1) xs h
-  /-- (2c) the written document is a well-formed source document -/
-  theorem srcOf_wf : ∀ (d : Nat) (es : Entries), domEs .native d es = true → SrcWFEs d (srcOfEs .native es) = true
-    | _, [], _ => by simp [srcOfEs, SrcWFEs]
-    | d, (k, v) :: es, h => by
-      simp only [domEs, Bool.and_eq_true] at h
-      simp only [srcOfEs, SrcWFEs, Bool.and_eq_true]
-      exact ⟨⟨⟨domKey_word h.1.1, by rw [domKey_types_back h.1.1]; rfl⟩, srcOfV_wf d v h.1.2⟩, srcOf_wf d es h.2⟩
-  theorem srcOfXs_wf : ∀ (d : Nat) (xs : List Val), domXs .native d xs = true → SrcWFXs d (srcOfXs .native xs) = true
-    | _, [], _ => by simp [srcOfXs, SrcWFXs]
-    | d, v :: xs, h => by
-      simp only [domXs, Bool.and_eq_true] at h
-      simp only [srcOfXs, SrcWFXs, Bool.and_eq_true]
-      exact ⟨srcOfV_wf d v h.1, srcOfXs_wf d xs h.2⟩
-end
-
-/-! ### (5) the written document denotes the normalised dict -/
+/-! ### denotation of the written document, by structural induction -/
 
 /-- leaves: the written literal means the normalised scalar -/
 theorem den_writtenLit {x : Scalar} (h : isDomScalar .native x = true) : (writtenLit .native x).den = normScalar x := by
@@ -547,12 +497,6 @@ mutual
       simp only [domXs, Bool.and_eq_true] at h
       simp only [srcOfXs, denSrcXs, normXs, den_srcOfV d v h.1, den_srcOfXs d xs h.2]
 end
-
-/-- (5) the written document denotes the normalised dict -/
-theorem den_written {es : Entries} (h : DomC01 .native es = true) : denSrcEs (srcOfEs .native es) [] = normEs es := by
-  simp only [DomC01, Bool.and_eq_true, decide_eq_true_eq] at h
-  rw [den_srcOfEs 1 es [] h.1 h.2 (fun _ _ hk => by cases hk)]
-  rfl
 
 /-! ### layouts as lists of (gap, token) pairs -/
 
@@ -721,7 +665,7 @@ theorem spaces_ne {n : Nat} (h : 0 < n) : spaces n ≠ [] := by
   | zero => omega
   | succ n => simp [spaces, List.replicate_succ]
 
-/-! ### (3) the writer's raw output is an admissible layout of the written document's tokens -/
+/-! ### the writer's lines as layouts, by structural induction -/
 
 theorem isWs_nl : isWs '\n' = true := by decide
 theorem text_word (w : Str) : (STok.word w).text = w := rfl
@@ -811,12 +755,12 @@ mutual
       split
       · have h1 := lays_line false (if first = true then level + 1 else 1) (writtenLit .native x).tok (Or.inr (Or.inr hlev))
         have h2 := h1.append (lays_items d level n (idx + 1) true rest h.2) (fun h => by cases h)
-        simpa [written_text] using h2
+        simpa [writtenLit_text] using h2
       · have h1 := Lays.tok false (g := spaces (4 * (if first = true then level + 1 else 1)))
           (tail := spaces (14 - (formatScalar .native x).length)) (writtenLit .native x).tok (spaces_ws _) (spaces_ws _)
           (Or.inr (Or.inr (spaces_ne (by omega))))
         have h2 := h1.append (lays_items d level n (idx + 1) false rest h.2) (fun h => by cases h)
-        simpa [written_text, fline] using h2
+        simpa [writtenLit_text, fline] using h2
   theorem lays_entries : ∀ (d level : Nat) (es : Entries), domEs .native d es = true →
       Lays true (srcToksEs (srcOfEs .native es)) (fmtEntries .native level es)
     | _, _, [], _ => by
@@ -848,18 +792,10 @@ mutual
       have h4 := lays_entries d level rest h.2
       have h5 := ((h0.append h1 (fun h => by cases h)).append h2 (fun h => by cases h)).append h4
         (fun _ => by simp [lastDelim, delim_facts])
-      simpa [srcOfEs, srcOfV, srcToksEs, fmtEntries, text_word, fline, written_text, formatKey_eq_keyStr h.1.1] using h5
+      simpa [srcOfEs, srcOfV, srcToksEs, fmtEntries, text_word, fline, writtenLit_text, formatKey_eq_keyStr h.1.1] using h5
 end
 
-/-- (3) the raw output of the writer (before trailing-space removal) is an admissible layout of the tokens of the
-    written document -/
-theorem fmt_is_layout {es : Entries} (h : DomC01 .native es = true) :
-    ∃ gaps tail, fmtEntries .native 0 es = spreadS (srcToksEs (srcOfEs .native es)) gaps tail ∧
-      GapsOKS (srcToksEs (srcOfEs .native es)) gaps = true ∧ tail.all isWs = true := by
-  simp only [DomC01, Bool.and_eq_true] at h
-  exact (lays_entries 1 0 es h.1).to_spread
-
-/-! ### (4) trailing-space removal keeps the layout -/
+/-! ### trailing-space removal, character by character -/
 
 theorem dropWhile_append_stop {α} (p : α → Bool) {z : α} (hz : p z = false) (y : List α) :
     ∀ x : List α, (x ++ z :: y).dropWhile p = x.dropWhile p ++ z :: y
@@ -1121,6 +1057,219 @@ theorem universalNl_layP : ∀ (l : List (Str × STok)) (pd : Bool) (tail : Str)
       · exact Or.inl h
       · exact Or.inr (by simpa using hne (by simpa using h))
 
+/-! ### tokens of a well-formed source document are "good" -/
+
+theorem isWs_cr : isWs '\r' = true := by decide
+
+theorem tokGood_word {w : Str} (hne : w ≠ []) (h : ∀ c ∈ w, isWs c = false) : TokGood (.word w) := by
+  refine ⟨w.dropLast, w.getLast hne, (List.dropLast_concat_getLast hne).symm, h _ (List.getLast_mem hne), fun c hc => ?_⟩
+  have := h c hc
+  constructor
+  · rintro rfl; rw [isWs_nl] at this; cases this
+  · rintro rfl; rw [isWs_cr] at this; cases this
+
+theorem tokGood_srcWord {w : Str} (h : isSrcWord w = true) : TokGood (.word w) := by
+  have hw := (isSrcWord_iff.mp h).1
+  simp only [isWordTok, Bool.and_eq_true, Bool.not_eq_true', List.all_eq_true] at hw
+  exact tokGood_word (by simpa using hw.1.1) (fun c hc => (hw.1.2 c hc).1)
+
+theorem quote_facts : ∀ q : Char, isQuote q = true → isWs q = false ∧ q ≠ '\n' ∧ q ≠ '\r' := by
+  intro q hq
+  simp only [isQuote, Bool.or_eq_true, beq_iff_eq] at hq
+  rcases hq with rfl | rfl <;> decide
+
+theorem tokGood_quoted {q : Char} {b : Str} (h : isSrcQuoted q b = true) : TokGood (.quoted q b) := by
+  simp only [isSrcQuoted, Bool.and_eq_true, Bool.not_eq_true', List.all_eq_true, bne_iff_ne, ne_eq] at h
+  obtain ⟨⟨⟨⟨⟨⟨⟨⟨hq, _⟩, hb⟩, _⟩, _⟩, _⟩, _⟩, _⟩, _⟩ := h
+  obtain ⟨h1, h2, h3⟩ := quote_facts q hq
+  refine ⟨q :: b, q, by simp [STok.text], h1, fun c hc => ?_⟩
+  simp only [STok.text, List.mem_cons, List.mem_append, List.not_mem_nil, or_false] at hc
+  rcases hc with (rfl | hc) | rfl
+  · exact ⟨h2, h3⟩
+  · have := (hb c hc).1
+    constructor
+    · rintro rfl; revert this; decide
+    · rintro rfl; revert this; decide
+  · exact ⟨h2, h3⟩
+
+theorem tokGood_lit {l : Lit} (h : l.ok = true) : TokGood l.tok := by
+  cases l with
+  | bare w => exact tokGood_srcWord h
+  | quoted q b => exact tokGood_quoted h
+
+theorem tokGood_delims : TokGood (.word ['{']) ∧ TokGood (.word ['}']) ∧ TokGood (.word ['(']) ∧
+    TokGood (.word [')']) ∧ TokGood (.word [';']) :=
+  ⟨tokGood_word (by simp) (by decide), tokGood_word (by simp) (by decide), tokGood_word (by simp) (by decide),
+    tokGood_word (by simp) (by decide), tokGood_word (by simp) (by decide)⟩
+
+mutual
+  theorem toksV_good : ∀ (d : Nat) (v : Src), SrcWFV d v = true → ∀ t ∈ srcToksV v, TokGood t
+    | d, .lit l, h, t, ht => by
+      simp only [SrcWFV, Bool.and_eq_true] at h
+      simp only [srcToksV, List.mem_singleton] at ht
+      subst ht; exact tokGood_lit h.1
+    | d, .dict es, h, t, ht => by
+      simp only [SrcWFV] at h
+      simp only [srcToksV, List.mem_cons, List.mem_append, List.not_mem_nil, or_false] at ht
+      rcases ht with (rfl | ht) | rfl
+      · exact tokGood_delims.1
+      · exact toksEs_good (d + 1) es h t ht
+      · exact tokGood_delims.2.1
+    | d, .list xs, h, t, ht => by
+      simp only [SrcWFV] at h
+      simp only [srcToksV, List.mem_cons, List.mem_append, List.not_mem_nil, or_false] at ht
+      rcases ht with (rfl | ht) | rfl
+      · exact tokGood_delims.2.2.1
+      · exact toksXs_good (d + 1) xs h t ht
+      · exact tokGood_delims.2.2.2.1
+  theorem toksEs_good : ∀ (d : Nat) (es : SrcEntries), SrcWFEs d es = true → ∀ t ∈ srcToksEs es, TokGood t
+    | _, [], _, t, ht => by simp [srcToksEs] at ht
+    | d, (k, .lit l) :: es, h, t, ht => by
+      simp only [SrcWFEs, SrcWFV, Bool.and_eq_true] at h
+      simp only [srcToksEs, List.mem_cons] at ht
+      rcases ht with rfl | rfl | rfl | ht
+      · exact tokGood_srcWord h.1.1.1
+      · exact tokGood_lit h.1.2.1
+      · exact tokGood_delims.2.2.2.2
+      · exact toksEs_good d es h.2 t ht
+    | d, (k, .dict es') :: es, h, t, ht => by
+      simp only [SrcWFEs, SrcWFV, Bool.and_eq_true] at h
+      simp only [srcToksEs, List.mem_cons, List.mem_append, List.not_mem_nil, or_false] at ht
+      rcases ht with ((rfl | rfl | ht) | rfl) | ht
+      · exact tokGood_srcWord h.1.1.1
+      · exact tokGood_delims.1
+      · exact toksEs_good (d + 1) es' h.1.2 t ht
+      · exact tokGood_delims.2.1
+      · exact toksEs_good d es h.2 t ht
+    | d, (k, .list xs) :: es, h, t, ht => by
+      simp only [SrcWFEs, SrcWFV, Bool.and_eq_true] at h
+      simp only [srcToksEs, List.mem_cons, List.mem_append, List.not_mem_nil, or_false] at ht
+      rcases ht with ((rfl | rfl | ht) | rfl | rfl) | ht
+      · exact tokGood_srcWord h.1.1.1
+      · exact tokGood_delims.2.2.1
+      · exact toksXs_good (d + 1) xs h.1.2 t ht
+      · exact tokGood_delims.2.2.2.1
+      · exact tokGood_delims.2.2.2.2
+      · exact toksEs_good d es h.2 t ht
+  theorem toksXs_good : ∀ (d : Nat) (xs : List Src), SrcWFXs d xs = true → ∀ t ∈ srcToksXs xs, TokGood t
+    | _, [], _, t, ht => by simp [srcToksXs] at ht
+    | d, v :: xs, h, t, ht => by
+      simp only [SrcWFXs, Bool.and_eq_true] at h
+      simp only [srcToksXs, List.mem_append] at ht
+      rcases ht with ht | ht
+      · exact toksV_good d v h.1 t ht
+      · exact toksXs_good d xs h.2 t ht
+end
+
+/-! ## the property -/
+
+/-! ### (1) no reordering on the domain -/
+
+/-- (1) the writer's top-level reordering does nothing on the domain -/
+theorem hoist_id {es : Entries} (h : DomC01 .native es = true) : hoistPlaceholders es = es := by
+  simp only [DomC01, Bool.and_eq_true] at h
+  have hk := domEs_keys h.1
+  unfold hoistPlaceholders
+  refine filter3_id _ _ es ?_ ?_
+  · intro e he
+    have := hk e he
+    split
+    · next s hs => rw [hs] at this; exact (domKey_not_ph this).1
+    · rfl
+  · intro e he
+    have := hk e he
+    split
+    · next s hs => rw [hs] at this; exact (domKey_not_ph this).2
+    · rfl
+
+/-! ### (2) how scalars and keys are spelled; the written document is well formed -/
+
+/-- (2a) the text of the written literal is what `format_value` produces — for every scalar, no domain needed -/
+theorem written_text (x : Scalar) : (writtenLit .native x).tok.text = formatScalar .native x := writtenLit_text x
+
+/-- (2b) on the domain the written literal is an admissible source literal -/
+theorem written_ok {x : Scalar} (h : isDomScalar .native x = true) : (writtenLit .native x).ok = true := by
+  cases x with
+  | int z => exact isSrcWord_intRepr z
+  | float l =>
+    have := pyFloatRepr_numChars (pyFloatRepr_bridge h)
+    exact isSrcWord_of_numChars this.1 this.2
+  | bool b => cases b <;> decide
+  | none => decide
+  | str s =>
+    have h : isDomStr .native s = true := h
+    have hd := domStr_no_dollar h
+    obtain ⟨_, _, _, _, _, _, _, hboth, hlast⟩ := isDomStr_iff.mp h
+    rcases C04.formatString_native_cases hd with ⟨hf, hne, hall⟩ | ⟨hf, hc⟩ | ⟨hf, _, hc⟩
+    · rw [writtenLit_str_bare hf]
+      obtain ⟨hq, hcx⟩ := (C04.all_plain_iff s).mp hall
+      rcases hlast with h1 | h1 | h1 | h1
+      · exact absurd (by simpa using h1) hne
+      · rw [hq] at h1; cases h1
+      · rw [hcx] at h1; cases h1
+      · exact h1
+    · rw [writtenLit_str_sq hf]
+      refine domStr_quoted h (by decide) ?_
+      rcases hc with rfl | hc | ⟨_, hc⟩
+      · rfl
+      · cases h1 : s.contains '\'' with
+        | false => rfl
+        | true => exact absurd ⟨h1, hc⟩ hboth
+      · rw [C04.any_isQuote] at hc
+        simp only [Bool.or_eq_false_iff] at hc
+        exact hc.1
+    · rw [writtenLit_str_dq hf]
+      exact domStr_quoted h (by decide) hc
+
+mutual
+  theorem srcOfV_wf : ∀ (d : Nat) (v : Val), domV .native d v = true → SrcWFV d (srcOfV .native v) = true
+    | d, .leaf x, h => by
+      simp only [domV, Bool.and_eq_true] at h
+      simp only [srcOfV, SrcWFV, Bool.and_eq_true]
+      exact ⟨written_ok h.1, h.2⟩
+    | d, .dict es, h => by
+      simp only [domV, Bool.and_eq_true] at h
+      simp only [srcOfV, SrcWFV]
+      exact srcOf_wf (d + 1) es h.1
+    | d, .list xs, h => by
+      simp only [domV] at h
+      simp only [srcOfV, SrcWFV]
+      exact srcOfXs_wf (d + 1) xs h
+  /-- (2c) the written document is a well-formed source document -/
+  theorem srcOf_wf : ∀ (d : Nat) (es : Entries), domEs .native d es = true → SrcWFEs d (srcOfEs .native es) = true
+    | _, [], _ => by simp [srcOfEs, SrcWFEs]
+    | d, (k, v) :: es, h => by
+      simp only [domEs, Bool.and_eq_true] at h
+      simp only [srcOfEs, SrcWFEs, Bool.and_eq_true]
+      exact ⟨⟨⟨domKey_word h.1.1, by rw [domKey_types_back h.1.1]; rfl⟩, srcOfV_wf d v h.1.2⟩, srcOf_wf d es h.2⟩
+  theorem srcOfXs_wf : ∀ (d : Nat) (xs : List Val), domXs .native d xs = true → SrcWFXs d (srcOfXs .native xs) = true
+    | _, [], _ => by simp [srcOfXs, SrcWFXs]
+    | d, v :: xs, h => by
+      simp only [domXs, Bool.and_eq_true] at h
+      simp only [srcOfXs, SrcWFXs, Bool.and_eq_true]
+      exact ⟨srcOfV_wf d v h.1, srcOfXs_wf d xs h.2⟩
+end
+
+/-! ### (5) the written document denotes the normalised dict -/
+
+/-- (5) the written document denotes the normalised dict -/
+theorem den_written {es : Entries} (h : DomC01 .native es = true) : denSrcEs (srcOfEs .native es) [] = normEs es := by
+  simp only [DomC01, Bool.and_eq_true, decide_eq_true_eq] at h
+  rw [den_srcOfEs 1 es [] h.1 h.2 (fun _ _ hk => by cases hk)]
+  rfl
+
+/-! ### (3) the writer's raw output is an admissible layout of the written document's tokens -/
+
+/-- (3) the raw output of the writer (before trailing-space removal) is an admissible layout of the tokens of the
+    written document -/
+theorem fmt_is_layout {es : Entries} (h : DomC01 .native es = true) :
+    ∃ gaps tail, fmtEntries .native 0 es = spreadS (srcToksEs (srcOfEs .native es)) gaps tail ∧
+      GapsOKS (srcToksEs (srcOfEs .native es)) gaps = true ∧ tail.all isWs = true := by
+  simp only [DomC01, Bool.and_eq_true] at h
+  exact (lays_entries 1 0 es h.1).to_spread
+
+/-! ### (4) trailing-space removal keeps the layout -/
+
 /-- (4) `remove_trailing_spaces` maps an admissible layout of tokens that hold no line break and end in a non-blank
     to an admissible layout of the same tokens (whatever white space the gaps consist of, `\r` included) -/
 theorem rts_layout (ts : List STok) (gaps : List Str) (tail : Str) (hgood : ∀ t ∈ ts, TokGood t)
@@ -1137,5 +1286,196 @@ theorem rts_layout (ts : List STok) (gaps : List Str) (tail : Str) (hgood : ∀ 
   refine ⟨l2.map Prod.fst, tail2, ?_, ?_, ht2⟩
   · rw [removeTrailingSpaces_eq, spreadS_pairUp, e1, e2, ← hts, spreadS_of_pairs]
   · rw [← hts]; exact gapsOKS_of_okFrom l2 true ok2
+
+/-- (4, for the writer) the text the native writer produces for a dict of the domain is an admissible layout of the
+    tokens of the written document -/
+theorem fmtPlain_is_layout {es : Entries} (h : DomC01 .native es = true) :
+    ∃ gaps tail, fmtPlain .native es = spreadS (srcToksEs (srcOfEs .native es)) gaps tail ∧
+      GapsOKS (srcToksEs (srcOfEs .native es)) gaps = true ∧ tail.all isWs = true := by
+  obtain ⟨gaps, tail, e, ok, ht⟩ := fmt_is_layout h
+  have hd : domEs .native 1 es = true := by
+    simp only [DomC01, Bool.and_eq_true] at h; exact h.1
+  rw [show fmtPlain .native es = removeTrailingSpaces (fmtEntries .native 0 (hoistPlaceholders es)) from rfl,
+    hoist_id h, e]
+  exact rts_layout _ gaps tail (toksEs_good 1 _ (srcOf_wf 1 es hd)) ok ht
+
+/-- everything the reader-side theorems need about the writer, in one statement -/
+theorem C01_writer {es : Entries} (h : DomC01 .native es = true) :
+    SrcWFEs 1 (srcOfEs .native es) = true ∧
+    denSrcEs (srcOfEs .native es) [] = normEs es ∧
+    ∃ gaps tail, fmtPlain .native es = spreadS (srcToksEs (srcOfEs .native es)) gaps tail ∧
+      GapsOKS (srcToksEs (srcOfEs .native es)) gaps = true ∧ tail.all isWs = true := by
+  have hd : domEs .native 1 es = true := by
+    simp only [DomC01, Bool.and_eq_true] at h; exact h.1
+  exact ⟨srcOf_wf 1 es hd, den_written h, fmtPlain_is_layout h⟩
+
+/-! ### (6) non-vacuity -/
+
+/-- `{'k': 'a;b', 'l': [1, 'x y', {'q': "it's"}], 's': {'t': 2.5, 7: None}, 'e': ''}` -/
+def exDict : Entries :=
+  [(.str "k".toList, .leaf (.str "a;b".toList)),
+   (.str "l".toList, .list [.leaf (.int 1), .leaf (.str "x y".toList), .dict [(.str "q".toList, .leaf (.str "it's".toList))]]),
+   (.str "s".toList, .dict [(.str "t".toList, .leaf (.float "2.5".toList)), (.int 7, .leaf .none)]),
+   (.str "e".toList, .leaf (.str []))]
+
+theorem exDict_dom : DomC01 .native exDict = true := by decide +kernel
+
+theorem intRepr_1 : intRepr 1 = ['1'] := by
+  show intRepr (Int.ofNat 1) = _
+  simp [intRepr, natDigits]
+
+theorem intRepr_7 : intRepr 7 = ['7'] := by
+  show intRepr (Int.ofNat 7) = _
+  simp [intRepr, natDigits]
+
+/-- lines to text (every line ends in `\n`); the expected texts are given line by line because the kernel unfolds a
+    long string literal slowly -/
+def unlines (ls : List String) : Str := ls.flatMap fun l => l.toList ++ ['\n']
+
+/-- the raw text (before trailing-space removal: the line `1                 'x y'` ends in padding) -/
+theorem exDict_raw : fmtEntries .native 0 exDict = unlines
+    ["k                             'a;b';",
+     "l",
+     "(",
+     "    1                 'x y'             ",
+     "    {",
+     "        q                     \"it's\";",
+     "    }",
+     ");",
+     "s",
+     "{",
+     "    t                         2.5;",
+     "    7                         NULL;",
+     "}",
+     "e                             '';"] := by
+  simp only [exDict, fmtEntries, fmtList, fmtItems, formatKey, keyStr, formatScalar, intRepr_1, intRepr_7]
+  decide +kernel
+
+theorem exDict_text : fmtPlain .native exDict = unlines
+    ["k                             'a;b';",
+     "l",
+     "(",
+     "    1                 'x y'",
+     "    {",
+     "        q                     \"it's\";",
+     "    }",
+     ");",
+     "s",
+     "{",
+     "    t                         2.5;",
+     "    7                         NULL;",
+     "}",
+     "e                             '';"] := by
+  rw [show fmtPlain .native exDict = removeTrailingSpaces (fmtEntries .native 0 (hoistPlaceholders exDict)) from rfl,
+    hoist_id exDict_dom, exDict_raw]
+  decide +kernel
+
+/-- the example instantiates the theorems: the writer's text is an admissible layout of a well-formed source
+    document that denotes the dict itself (normalisation changes nothing here) -/
+theorem exDict_norm : normEs exDict = exDict := by decide +kernel
+
+theorem exDict_writer :
+    SrcWFEs 1 (srcOfEs .native exDict) = true ∧
+    denSrcEs (srcOfEs .native exDict) [] = exDict ∧
+    ∃ gaps tail, fmtPlain .native exDict = spreadS (srcToksEs (srcOfEs .native exDict)) gaps tail ∧
+      GapsOKS (srcToksEs (srcOfEs .native exDict)) gaps = true ∧ tail.all isWs = true := by
+  have := C01_writer exDict_dom
+  rwa [exDict_norm] at this
+
+/-- the tokens of the example document -/
+theorem exDict_toks : (srcToksEs (srcOfEs .native exDict)).map STok.text =
+    ["k", "'a;b'", ";", "l", "(", "1", "'x y'", "{", "q", "\"it's\"", ";", "}", ")", ";",
+     "s", "{", "t", "2.5", ";", "7", "NULL", ";", "}", "e", "''", ";"].map String.toList := by
+  simp only [exDict, srcOfEs, srcOfV, srcOfXs, srcToksEs, srcToksV, srcToksXs, List.map_cons, List.map_nil,
+    written_text, text_word, keyStr, formatScalar, intRepr_1, intRepr_7, List.cons_append, List.nil_append]
+  decide +kernel
+
+/-! ### why the hypotheses are there -/
+
+/-- decidable form of `TokGood` -/
+def tokGoodB (t : STok) : Bool :=
+  (match t.text.getLast? with | some z => !isWs z | none => false) && t.text.all fun c => c != '\n' && c != '\r'
+
+theorem tokGoodB_iff (t : STok) : tokGoodB t = true ↔ TokGood t := by
+  simp only [tokGoodB, TokGood, Bool.and_eq_true, List.all_eq_true, bne_iff_ne, ne_eq]
+  constructor
+  · rintro ⟨h1, h2⟩
+    split at h1
+    · next z hz =>
+      obtain ⟨a, ha⟩ := List.getLast?_eq_some_iff.mp hz
+      exact ⟨a, z, ha, by simpa using h1, h2⟩
+    · cases h1
+  · rintro ⟨a, z, ha, hz, h2⟩
+    refine ⟨?_, h2⟩
+    rw [ha, List.getLast?_concat]
+    simp [hz]
+
+instance (t : STok) : Decidable (TokGood t) := decidable_of_iff _ (tokGoodB_iff t)
+
+/-- `rts_layout` needs more than "no token holds `\n` or `\r`": a token that ends in a blank is cut when it stands at
+    the end of a line (here: of the text).  (No source token does: words hold no blank, quoted strings end in the quote.) -/
+theorem rts_layout_needs_nonblank_end :
+    ¬ ∀ (ts : List STok) (gaps : List Str) (tail : Str), (∀ t ∈ ts, ∀ c ∈ t.text, c ≠ '\n' ∧ c ≠ '\r') →
+      GapsOKS ts gaps = true → tail.all isWs = true →
+      ∃ gaps' tail', removeTrailingSpaces (spreadS ts gaps tail) = spreadS ts gaps' tail' ∧
+        GapsOKS ts gaps' = true ∧ tail'.all isWs = true := by
+  intro h
+  obtain ⟨gaps', tail', e, _, _⟩ := h [.word "a ".toList] [[]] [] (by decide) (by decide) (by decide)
+  have e0 : removeTrailingSpaces (spreadS [.word "a ".toList] [[]] []) = ['a'] := by decide
+  rw [e0] at e
+  have := congrArg List.length e
+  cases gaps' <;> simp [spreadS, spread, STok.text] at this
+  omega
+
+/-- … and it needs "no token holds a line feed": blanks in front of a line feed inside a (quoted) token are removed -/
+theorem rts_layout_needs_no_nl :
+    ¬ ∀ (ts : List STok) (gaps : List Str) (tail : Str),
+      (∀ t ∈ ts, ∃ a z, t.text = a ++ [z] ∧ isWs z = false) →
+      GapsOKS ts gaps = true → tail.all isWs = true →
+      ∃ gaps' tail', removeTrailingSpaces (spreadS ts gaps tail) = spreadS ts gaps' tail' ∧
+        GapsOKS ts gaps' = true ∧ tail'.all isWs = true := by
+  intro h
+  obtain ⟨gaps', tail', e, _, _⟩ := h [.quoted '\'' "a \nb".toList] [[]] []
+    (by intro t ht; simp only [List.mem_singleton] at ht; subst ht; exact ⟨"'a \nb".toList, '\'', by decide, by decide⟩)
+    (by decide) (by decide)
+  have e0 : removeTrailingSpaces (spreadS [.quoted '\'' "a \nb".toList] [[]] []) = "'a\nb'".toList := by decide
+  rw [e0] at e
+  have := congrArg List.length e
+  cases gaps' <;> simp [spreadS, spread, STok.text] at this
+  omega
+
+/-- outside the domain the top-level reordering is not the identity: a key that looks like a block-comment
+    placeholder moves to the front -/
+theorem hoist_id_needs_dom :
+    hoistPlaceholders [(.str "a".toList, .leaf (.int 1)), (.str "BLOCKCOMMENT000001".toList, .leaf (.int 2))] ≠
+      [(.str "a".toList, .leaf (.int 1)), (.str "BLOCKCOMMENT000001".toList, .leaf (.int 2))] := by
+  decide +kernel
+
+/-- outside the domain the leaf-entry line spells the key by `format_key` (quoted when it holds a blank), which is
+    not the word `str(key)`: the writer's line is no layout of the expected tokens -/
+theorem fmt_is_layout_needs_dom :
+    ¬ ∃ gaps tail, fmtEntries .native 0 [(.str "a b".toList, .leaf (.bool true))] =
+        spreadS (srcToksEs (srcOfEs .native [(.str "a b".toList, .leaf (.bool true))])) gaps tail ∧
+      GapsOKS (srcToksEs (srcOfEs .native [(.str "a b".toList, .leaf (.bool true))])) gaps = true := by
+  rintro ⟨gaps, tail, e, ok⟩
+  have e1 : fmtEntries .native 0 [(.str "a b".toList, .leaf (.bool true))] =
+      '\'' :: ("a b'".toList ++ spaces 25 ++ "true;\n".toList) := by
+    simp only [fmtEntries, formatKey, formatScalar]
+    decide
+  have e2 : srcToksEs (srcOfEs .native [(.str "a b".toList, .leaf (.bool true))]) =
+      [.word "a b".toList, .word "true".toList, .word [';']] := by decide
+  rw [e1, e2] at e
+  rw [e2] at ok
+  match gaps, ok with
+  | g :: g' :: gs, ok =>
+    simp only [GapsOKS, Bool.and_eq_true] at ok
+    have hg := ok.1.1
+    cases g with
+    | nil => simp [spreadS, spread, STok.text] at e
+    | cons c g =>
+      simp only [spreadS, spread, List.map_cons, List.cons_append, List.cons.injEq] at e
+      simp only [List.all_cons, Bool.and_eq_true] at hg
+      rw [← e.1] at hg
+      exact absurd hg.1 (by decide)
 
 end DictIO.C01
